@@ -249,15 +249,25 @@ func runC37(c *core.Ctx) {
 					if !ok || b.Op != token.GEQ {
 						continue
 					}
+					// the number appended so far: a counter bumped with the append, or the length of the list
+					// just appended to
 					add, isAdd := b.X.(*ssa.BinOp)
-					if !isAdd || add.Op != token.ADD {
-						continue
+					lenForm := false
+					if ln, isLn := b.X.(*ssa.Call); isLn {
+						if bi, isB := ln.Common().Value.(*ssa.Builtin); isB && bi.Name() == "len" && ln.Common().Args[0] == a.Value() {
+							lenForm = true
+						}
 					}
-					if k, okk := ir.ConstInt(add.Y); !okk || k != 1 {
-						continue
-					}
-					if _, isPhi := add.X.(*ssa.Phi); !isPhi {
-						continue
+					if !lenForm {
+						if !isAdd || add.Op != token.ADD {
+							continue
+						}
+						if k, okk := ir.ConstInt(add.Y); !okk || k != 1 {
+							continue
+						}
+						if _, isPhi := add.X.(*ssa.Phi); !isPhi {
+							continue
+						}
 					}
 					// same block as (or dominated by) the append, and the true edge leaves the loop
 					if cd.If.Block() != a.Block() {
@@ -267,6 +277,14 @@ func runC37(c *core.Ctx) {
 					r.RunFromBlock(cd.If.Block().Succs[0])
 					if !r.Instr(a) {
 						okBound = true
+						if lenForm {
+							detail = "len(list) >= count exits"
+							okBound = c37CountBound(fn, b.Y)
+							if !okBound {
+								detail = "count is not min(len(txList), MaxTxInBlock)-shaped"
+							}
+							continue
+						}
 						detail = "num+1 >= count exits; num phi " + add.X.Name()
 						// num is incremented only here: the phi's non-initial edges are this add or the phi itself
 						for _, e := range eng.PhiLeaves(nil, add.X) {
@@ -335,6 +353,11 @@ func runC37(c *core.Ctx) {
 
 // c37CountBound: v is count where count = int(MaxTxInBlock) unless (len(txList) < count || !byCount) → len(txList).
 func c37CountBound(fn *ssa.Function, v ssa.Value) bool {
+	// computed inline or by a helper handed the pool size
+	if via, release := valueVia(v); via != v {
+		defer release()
+		v = via
+	}
 	leaves := eng.PhiLeaves(nil, v)
 	if len(leaves) == 0 {
 		return false
